@@ -101,6 +101,9 @@ func next(name, kind string) nondetVal {
 	mu.Lock()
 	defer mu.Unlock()
 	load()
+	for pos < len(rf.Nondets) && rf.Nondets[pos].Kind == "env" {
+		pos++ // environment readings (clock) are not replayed
+	}
 	if pos >= len(rf.Nondets) {
 		// the engine's path ended here (it stops at the first violated obligation)
 		panic(ReplayEnd{})
